@@ -65,11 +65,13 @@ def programs(tier):
     for c in atoms(tier) + combos():
         out.append(("if", [c]))
         out.append(("ifelse", [c]))
+        out.append(("ifelse_empty", [c]))     # an Else block whose body generates no code
     cs = combos()
     a, b, c = Cmp("<", Reg("sr", 3), Loc("q")), Cmp("==", Loc("I"), Const(5)), Bits(3, 1, "f_bit")
     for x, y in [(a, b), (b, c), (c, a), (cs[0], c), (a, cs[5])]:
         out.append(("nested", [x, y]))
         out.append(("sequence", [x, y]))
+        out.append(("nested_empty", [x, y]))
     return out
 
 
@@ -95,6 +97,23 @@ def build(kind, conds):
         elif kind == "ifelse":
             with conds[0].dsl(self) as Else:
                 self.m0 = 1
+            with Else:
+                self.m1 = 1
+            self.m2 = 1
+        elif kind == "ifelse_empty":
+            with conds[0].dsl(self) as Else:
+                self.m0 = 1
+            with Else:
+                pass
+            self.m2 = 1
+        elif kind == "nested_empty":
+            with conds[0].dsl(self) as Else:
+                self.m0 = 1
+                with conds[1].dsl(self) as E2:
+                    self.m3 = 1
+                with E2:
+                    pass
+                self.m5 = 1
             with Else:
                 self.m1 = 1
             self.m2 = 1
@@ -135,7 +154,11 @@ def expected(kind, truths):
         return {0: t0, 1: F, 2: T, 3: F, 4: F, 5: F}
     if kind == "ifelse":
         return {0: t0, 1: z3.Not(t0), 2: T, 3: F, 4: F, 5: F}
+    if kind == "ifelse_empty":
+        return {0: t0, 1: F, 2: T, 3: F, 4: F, 5: F}
     t1 = truths[1]
+    if kind == "nested_empty":
+        return {0: t0, 1: z3.Not(t0), 2: T, 3: z3.And(t0, t1), 4: F, 5: t0}
     if kind == "nested":
         return {0: t0, 1: z3.Not(t0), 2: T, 3: z3.And(t0, t1), 4: z3.And(t0, z3.Not(t1)), 5: t0}
     return {0: t0, 1: F, 2: T, 3: t1, 4: z3.Not(t1), 5: F}
